@@ -52,8 +52,18 @@ def instantiate(script, outer, inner):
     lines = script.split("\n")
     out = []
     for i, l in enumerate(lines):
-        cls = outer if i == len(lines) - 1 else inner
-        out.append(re.sub(r"(?<![A-Za-z])Query\.", QNAMES[cls] + ".", l))
+        if i == len(lines) - 1:
+            # the statement itself: its first builder is the outer class, further operands (set operations) the inner one
+            first = [True]
+
+            def rep(m):
+                if first[0]:
+                    first[0] = False
+                    return QNAMES[outer] + "."
+                return QNAMES[inner] + "."
+            out.append(re.sub(r"(?<![A-Za-z])Query\.", rep, l))
+        else:
+            out.append(re.sub(r"(?<![A-Za-z])Query\.", QNAMES[inner] + ".", l))
     return "\n".join(out)
 
 
